@@ -731,27 +731,84 @@ theorem multi_no_write_fs (s s' : Multi.MState) (op : Ref.Op) (out : Out) (tr : 
     have := key (one (.setinfo p)) (hone _ rfl)
     rw [h] at this; exact this
 
-/-- on an open MultiFS the plain writing methods raise exactly `ResourceReadOnly` then -/
+/-- on an open MultiFS the writing methods — `makedir`, `makedirs`, `setinfo`, `upload`,
+`writebytes`, `writetext`, and `openbin` / `open` in a (valid) writing mode such as `w`, `a`, `x`,
+`r+`, `rb+`, `r+t` — raise exactly `ResourceReadOnly` then, without asking any member -/
 theorem multi_no_write_fs_read_only (s : Multi.MState) (pr : Prim) (hw : s.writeFs = none)
     (hc : s.closed = false) (hpw : pr.writes = true)
-    (hm : ∀ p m, pr = .openbin p m → Multi.modeOk m = true) :
+    (hm : ∀ p m, (pr = .openbin p m ∨ ∃ d, pr = .open_ p m d) → modeOk m = true) :
     (Multi.prim s pr).2.1 = .err .ResourceReadOnly ∧ (Multi.prim s pr).2.2 = [] ∧
     (Multi.prim s pr).1.fs = s.fs := by
   refine ⟨MultiL.prim_write_read_only s pr hw hc hpw hm, ?_, ?_⟩
   · cases pr <;> simp [Prim.writes] at hpw <;>
       simp only [Multi.prim, MultiL.viaWrite_none _ _ _ hw, Multi.checked, hc]
     case openbin p m =>
-      have h1 := hm p m rfl
-      have : Multi.checkWritable m = true := by simpa [Multi.checkWritable] using hpw
+      have h1 := hm p m (Or.inl rfl)
+      have : checkWritable m = true := by simpa [checkWritable] using hpw
+      simp [h1, this]
+    case open_ p m d =>
+      have h1 := hm p m (Or.inr ⟨d, rfl⟩)
+      have : checkWritable m = true := by simpa [checkWritable] using hpw
       simp [h1, this]
     all_goals rfl
   · cases pr <;> simp [Prim.writes] at hpw <;>
       simp only [Multi.prim, MultiL.viaWrite_none _ _ _ hw, Multi.checked, hc]
     case openbin p m =>
-      have h1 := hm p m rfl
-      have : Multi.checkWritable m = true := by simpa [Multi.checkWritable] using hpw
+      have h1 := hm p m (Or.inl rfl)
+      have : checkWritable m = true := by simpa [checkWritable] using hpw
+      simp [h1, this]
+    case open_ p m d =>
+      have h1 := hm p m (Or.inr ⟨d, rfl⟩)
+      have : checkWritable m = true := by simpa [checkWritable] using hpw
       simp [h1, this]
     all_goals rfl
+
+/-- **Every writing method changes at most the write member** — stated for the methods
+themselves (so also for `open(path, mode)` with whatever is then written through the file object,
+`writetext`, `upload`): a call of a creating/writing method leaves every member other than
+`write_fs` unchanged, and every call it makes is a query or goes to `write_fs`. -/
+theorem multi_write_methods_only_write_fs (s : Multi.MState) (pr : Prim) (hpw : pr.writes = true)
+    (j : Nat) (hj : s.writeFs ≠ some j) :
+    (Multi.prim s pr).1.fs j = s.fs j ∧
+    ∀ c ∈ (Multi.prim s pr).2.2, isQuery c.op = true ∨ s.writeFs = some c.fs := by
+  have hnr : removes pr = false := by cases pr <;> first | rfl | (simp [Prim.writes] at hpw)
+  have hcalls : ∀ c ∈ (Multi.prim s pr).2.2, isQuery c.op = true ∨ s.writeFs = some c.fs := by
+    intro c hc
+    rcases MultiL.prim_calls s pr c hc with hq | ⟨_, hw⟩ | ⟨hr, _⟩
+    · exact Or.inl hq
+    · exact Or.inr hw
+    · rw [hnr] at hr; cases hr
+  refine ⟨MultiL.prim_frame s pr j (fun c hc hcj => ?_), hcalls⟩
+  rcases hcalls c hc with hq | hw
+  · exact hq
+  · exact absurd (hcj ▸ hw) hj
+
+/-- `open` in a mode that is not a writing mode (`r`, `rb`, `rt`) is answered by the member
+`_delegate` finds and changes nothing; in a writing mode it goes to the write member — the routing
+is by `check_writable(mode)`, i.e. by `w`, `a`, `x` **or `+`** in the mode string -/
+theorem multi_open_routing (s : Multi.MState) (p m : Str) (d : Option Bytes) (hc : s.closed = false)
+    (hm : modeOk m = true) :
+    (checkWritable m = true → Multi.prim s (.open_ p m d) = Multi.viaWrite s (.open_ p m d) p) ∧
+    (checkWritable m = false →
+      Multi.prim s (.open_ p m d) =
+        Multi.viaDelegate s (.open_ p m d) p (.ok p) (.err .ResourceNotFound) ∧
+      ∀ j, (Multi.prim s (.open_ p m d)).1.fs j = s.fs j) := by
+  have hprim : Multi.prim s (.open_ p m d) =
+      (if checkWritable m = true then Multi.viaWrite s (.open_ p m d) p
+       else Multi.viaDelegate s (.open_ p m d) p (.ok p) (.err .ResourceNotFound)) := by
+    simp [Multi.prim, Multi.checked, hc, hm]
+  refine ⟨fun hw => by rw [hprim, if_pos hw], fun hw => ?_⟩
+  have hprim' : Multi.prim s (.open_ p m d) =
+      Multi.viaDelegate s (.open_ p m d) p (.ok p) (.err .ResourceNotFound) := by
+    rw [hprim]; simp [hw]
+  refine ⟨hprim', fun j => ?_⟩
+  apply MultiL.prim_frame
+  intro c hcm _
+  rcases MultiL.prim_calls s _ c hcm with hq | ⟨hwr, _⟩ | ⟨hr, _⟩
+  · exact hq
+  · have : checkWritable m = true := by simpa [Prim.writes, checkWritable] using hwr
+    rw [hw] at this; cases this
+  · cases hr
 
 /-- read-only operations change no member -/
 theorem multi_queries_change_nothing (s s' : Multi.MState) (op : Ref.Op) (out : Out) (tr : List Call)
@@ -875,6 +932,22 @@ def mixedMulti (hiDir : Bool) : Multi.MState :=
 example : (Multi.listing (mixedMulti true) .listdir "b".toList).2.1 = .ok (.names ["x".toList]) := by decide
 example : (Multi.listing (mixedMulti false) .listdir "b".toList).2.1 = .err .DirectoryExpected := by decide
 example : (Multi.listing (mixedMulti true) .listdir "c".toList).2.1 = .err .ResourceNotFound := by decide
+
+/-- `open`: `r+` is a writing mode.  With a read layer holding `f` and an empty write layer,
+`open("f", "r+")` goes to the write layer (and fails there: `ResourceNotFound`), the read layer is
+not asked to open anything; `open("f", "rt")` is answered by the read layer; without a write
+layer `open(…, "rb+")` is `ResourceReadOnly`; on a MountFS the data written through
+`open("/a/f", "r+")` lands in the mounted member only. -/
+example : (let r := Multi.prim twoMembers (.open_ "f".toList "r+".toList (some [9]))
+           (r.2.1, r.2.2.map (fun c => (c.fs, c.meth)))) = (.err .ResourceNotFound, [(1, .open_)]) := by decide
+example : (let r := Multi.prim twoMembers (.open_ "f".toList "rt".toList none)
+           (r.2.1, r.2.2.map (fun c => (c.fs, c.meth)))) =
+    (.ok .unit, [(1, .exists_), (0, .exists_), (0, .open_)]) := by decide
+example : (Multi.prim demoMulti (.open_ "f".toList "rb+".toList none)).2.1 = .err .ResourceReadOnly := by decide
+example : (let r := Mount.prim demoMount (.open_ "/a/f".toList "r+".toList (some [9, 9]))
+           (r.2.1, r.2.2.map (fun c => (c.fs, c.meth, c.path)),
+            (Ref.step (r.1.fs 1) (.readbytes "f".toList)).2)) =
+    (.ok .unit, [(1, .open_, "f".toList)], .ok (.bytes [9, 9])) := by decide
 
 example : (Multi.step demoMulti (.writebytes "g".toList [1])).map (·.2.1) = some (.err .ResourceReadOnly) := by decide
 example : (Multi.step demoMulti (.create "f".toList false)).map (·.2.1) = some (.ok (.bool false)) := by decide
